@@ -6,7 +6,9 @@ DIR="$1"; shift
 cd /verif
 if [ -n "$(git -C /repo status --porcelain --untracked-files=no)" ]; then echo "refusing: /repo dirty"; exit 2; fi
 git -C /repo apply "$DIR/patch.diff" || { echo "patch does not apply: $DIR"; exit 2; }
-trap 'git -C /repo checkout -- . ; git -C /repo clean -fdq -- lib bin server 2>/dev/null' EXIT
+# evidence files are rewritten by every run: keep the ones of the unchanged tree
+EVBAK=$(mktemp -d /verif/target/evbak.XXXX); cp -a /verif/evidence/. "$EVBAK"/
+trap 'git -C /repo checkout -- . ; git -C /repo clean -fdq -- lib bin server 2>/dev/null; cp -a "$EVBAK"/. /verif/evidence/; rm -rf "$EVBAK"' EXIT
 for id in "$@"; do
   s=$(date +%s)
   out=$(./check "$id" "${TIER:-quick}" 2>&1); rc=$?
